@@ -50,6 +50,7 @@ PRED_SIG = {
     "Step_C20_AcctBalancePitNoEffective": "accounts-pit-balance-filter/effective-volumes-disabled",
     "Step_C37_ParamsPartialOverride": "template-params/request-params-erase-template-params",
     "Step_C37_RunExactAmounts": "template-run/amounts-above-2p53-rounded",
+    "Step_C37_VarExactAmounts": "template-vars/numbers-above-2p53-rounded",
 }
 
 # predicates whose applicability guards vacuity, per property
